@@ -58,7 +58,7 @@ SPEC = dict(
     search_n={"quick": 3000, "thorough": 20000},
     nontrivial=nontrivial,
     histogram=histogram,
-    rule="Proof: 34 theorems of coq/maxi/C07.v + 5 of coq/maxi/C07Source.v, all inputs (no bound on rows): over an "
+    rule="Proof: 38 theorems of coq/maxi/C07.v + 6 of coq/maxi/C07Source.v, all inputs (no bound on rows): over an "
          "abstract element type with a total preorder on the admissible values — generic max / argmax / threshold "
          "meet max_spec / argmax_spec (designated cell in range and >= every cell) / threshold_spec (NoDup, "
          "membership iff cell >= t), None exactly on the matrix without rows; argmax_f32_avx2, max_f32_avx2 "
@@ -73,7 +73,7 @@ SPEC = dict(
          "some valid score is finite. Order facts discharged for binary32 from Flocq's Bcompare/Bplus by a "
          "lexicographic key (closed under the global context) and for u8 (Z). check_C07 (extracted, used by "
          "the driver for PROPFAIL) is proved sound and complete (check_C07_sound / _complete, "
-         "model_passes_C07). C07Source.v: the dispatcher arm table, the Pipeline<Sse2/Avx2> overrides, the "
+         "model_passes_C07), as is the end-to-end padding checker (check_padding_max_sound / _complete). C07Source.v: the dispatcher arm table, the Pipeline<Sse2/Avx2> overrides, the "
          "permute2x128 operands/immediates/store offsets of argmax_u8_avx2 and the load/store offsets of the "
          "f32 kernels, re-read from the source on every run (translate/maxi_tables.py), are those of the model. "
          "Correspondence run — corpus: one unique maximum in every column x first/last row of all-negative f32 and "
